@@ -25,8 +25,17 @@ ASSUMPTIONS = [
 
 KNOWN_PFV2 = "pfv-list-two-component"
 KNOWN_WS = "generic-literal-whitespace"
+KNOWN_NOTIN = "notin-union-notin-any"
+
+
+def two_notin_alternatives(t: str) -> bool:
+    """two reversed `"x" not in var` items on one variable (the known finding of C07 seen through parse_marker's simplification)"""
+    import re
+    names = re.findall(r"""(?:"[^"]*"|'[^']*')\s*not in\s*([A-Za-z_.]+)""", t)
+    return any(names.count(n) > 1 for n in names) and " or " in t
 
 CORPUS = [
+    '"5.1" not in platform_release or "10" not in platform_release',
     'python_version >= "3.8"', 'python_full_version ~= "3.8.1"', 'python_full_version == "3.8"', 'python_version in "3.8 3.9"',
     'python_version not in "3.8, 3.9"', '"tegra" in platform_version', "'arm' not in platform_machine", 'os.name == "nt"',
     'extra == "Foo_Bar"', 'extra != "foo.bar" and extra == "a"', 'sys_platform in "linux darwin"',
@@ -89,7 +98,9 @@ def check_texts(ctx: core.Ctx, texts: list[str], stream: str, envs: list[dict[st
                 ctx.disagree(stream + ":truth", {"marker": t, "env": envs[bad[0]]}, ib[bad[0]], mb[bad[0]])
             ctx.count("unmodelled-env-values", sum(1 for y in mb if y == "u"))
             # the simplified marker must evaluate like the raw one (ties the simplifier to the model's raw evaluation)
-            if pm is not None:
+            if pm is not None and two_notin_alternatives(t):
+                ctx.count("simplified-vs-raw:skipped-known-notin-union")   # the simplifier is knowingly unsound there (C07 finding)
+            elif pm is not None:
                 pb = MC.split_bits(pbits)
                 bad = [k for k, (x, y) in enumerate(zip(pb, mb)) if y in "01" and x in "01" and x != y]
                 if bad:
@@ -121,7 +132,8 @@ def check_texts(ctx: core.Ctx, texts: list[str], stream: str, envs: list[dict[st
                     ctx.violate(f"validate-raises:{t}", f"parse_marker({t!r}).validate raised {x} on {envs[k]}", {"marker": t, "env": envs[k]})
                     break
                 if (x == "1") != tv:
-                    key = KNOWN_PFV2 if pfv2_list(t) else f"eval:{t}"
+                    key = (KNOWN_PFV2 if pfv2_list(t) else KNOWN_WS if ws_literal(t) else
+                           KNOWN_NOTIN if two_notin_alternatives(t) else f"eval:{t}")
                     ctx.violate(key, f"{t!r} on {brief(envs[k])}: poetry-core {x == '1'}, reference {tv}", {"marker": t, "env": envs[k]})
                     break
                 ctx.count("oracle:compared")
@@ -153,10 +165,12 @@ def pfv2_list(t: str) -> bool:
 def in_c06_domain(t: str) -> bool:
     """the literal/operator shapes the property quantifies over (everything else is only compared model vs code)"""
     import re
-    items = re.findall(r"""([A-Za-z_.]+)\s*(===|==|!=|<=|>=|~=|<|>|not\s+in|in)\s*("[^"]*"|'[^']*')""", t)
-    rev = re.findall(r"""("[^"]*"|'[^']*')\s*(===|==|!=|<=|>=|~=|<|>|not\s+in|in)\s*([A-Za-z_.]+)""", t)
+    items = re.findall(r"""([A-Za-z_.]+)\s*(===|==|!=|<=|>=|~=|<|>|not in|in)\s*("[^"]*"|'[^']*')""", t)
+    rev = re.findall(r"""("[^"]*"|'[^']*')\s*(===|==|!=|<=|>=|~=|<|>|not in|in)\s*([A-Za-z_.]+)""", t)
     if len(items) + len(rev) != G.count_leaves(t):
-        return False
+        return False        # e.g. `not  in` with several blanks: poetry-core's grammar has the literal "not in" (C19's subject)
+    if any(lit[1:-1] == "" for _, _, lit in items) or any(lit[1:-1] == "" for lit, _, _ in rev):
+        return False        # empty literals are not values of any variable
     for name, op, lit in items:
         lit = lit[1:-1]
         op = " ".join(op.split())
